@@ -42,7 +42,7 @@ def parse_mutant(path):
     return exp, what
 
 
-def run_mutant(pid, mod, patch):
+def run_mutant(pid, mod, patch, slot=0):
     exp, what = parse_mutant(patch)
     if not exp:
         raise qe.Broken(f"mutant {patch} has no '# expect:' header")
@@ -51,7 +51,7 @@ def run_mutant(pid, mod, patch):
         r = subprocess.run(["patch", "-p1", "--no-backup-if-mismatch", "-s", "-i", patch], cwd=d, capture_output=True, text=True)
         if r.returncode != 0:
             raise qe.Broken(f"mutant {os.path.basename(patch)} does not apply to the current tree: {r.stdout[-400:]} {r.stderr[-400:]}")
-        F = qe.load_facts(repo=d)
+        F = qe.load_facts_uncached(d, slot)
         R = Report(pid, F)
         mod.run(F, R)
         keys = {i["key"] for i in R.items if i["status"] == "violation"}
@@ -59,14 +59,35 @@ def run_mutant(pid, mod, patch):
         return dict(mutant=os.path.basename(patch), what=what, expected=exp, reported=sorted(keys), fired=not missing, missing=missing)
     finally:
         shutil.rmtree(d, ignore_errors=True)
-        shutil.rmtree(os.path.join(qe.CACHE, "facts", qe.tree_key(d)) if os.path.exists(d) else "/nonexistent", ignore_errors=True)
+
+
+def _worker(args):
+    pid, slot, patches = args
+    import importlib
+    mod = importlib.import_module(pid.lower())
+    out = []
+    for p in patches:
+        try:
+            out.append(run_mutant(pid, mod, p, slot))
+        except qe.Broken as e:
+            out.append(dict(mutant=os.path.basename(p), what="", expected=parse_mutant(p)[0], reported=[], fired=False, missing=["BROKEN: " + str(e)[-600:]]))
+    return out
 
 
 def run(pid, mod, R):
     res = []
     base_viol = {i["key"] for i in R.items if i["status"] == "violation"}
-    for patch in sorted(glob.glob(os.path.join(VERIF, "mutants", f"{pid}-*.patch"))):
-        m = run_mutant(pid, mod, patch)
+    patches = sorted(glob.glob(os.path.join(VERIF, "mutants", f"{pid}-*.patch")))
+    jobs = max(1, min(int(os.environ.get("QE_MUT_JOBS", "4")), len(patches) or 1))
+    base_slot = int(os.environ.get("QE_MUT_SLOT0", "0"))
+    parts = [(pid, base_slot + k, patches[k::jobs]) for k in range(jobs)]
+    if jobs == 1:
+        outs = [_worker(parts[0])]
+    else:
+        import multiprocessing
+        with multiprocessing.get_context("fork").Pool(jobs) as pool:
+            outs = pool.map(_worker, parts)
+    for m in sorted((m for o in outs for m in o), key=lambda m: m["mutant"]):
         # the expected keys must not already be reported on the unmodified tree (else the mutant proves nothing)
         m["already_on_base"] = [e for e in m["expected"] if e in base_viol]
         res.append(m)
